@@ -2143,6 +2143,91 @@ def r11(ctx):
         f"(e.g. an empty list, packed to zero bytes) is passed through as raw bytes instead of being unpacked")
 
 
+# =========================================================================== R12 / R13
+
+def _packet_handlers(repo):
+    """(manager class, pump method, handler) for every self.<handler>(...) call made from inside a loop of a
+    method of the two transfer managers: code that runs once per arriving message, duplicates included."""
+    out = []
+    for cname, rel in (("XferManager", XFER), ("TransferManager", TRANSFER)):
+        ci = repo.cls(cname, rel)
+        for m in ci.methods.values():
+            for lp in (n for n in walk(m.node) if isinstance(n, (ast.While, ast.For, ast.AsyncFor))):
+                # every method of the manager referenced through `self.` inside the loop - called directly, or named
+                # in a dispatch table built by a helper the loop calls (bound methods as values)
+                frontier, seen_nodes = [lp], set()
+                for _ in range(3):
+                    nxt = []
+                    for node in frontier:
+                        for x in walk(node, into_defs=True):
+                            if isinstance(x, ast.Attribute) and isinstance(x.value, ast.Name) and x.value.id == "self":
+                                h = _lookup_method(repo, ci, x.attr)
+                                if h is not None and h is not m and h.full not in seen_nodes:
+                                    seen_nodes.add(h.full)
+                                    nxt.append(h.node)
+                                    if (ci, m, h) not in out:
+                                        out.append((ci, m, h))
+                    frontier = nxt
+    return out
+
+
+def r12(ctx):
+    repo = ctx.repo
+    ctx.rule("C20.R12", "per-message transfer handlers resolve a future at most once: every direct set_result() is "
+                        "guarded by `not <that future>.done()` (a duplicated message must not raise InvalidStateError)")
+    hs = _packet_handlers(repo)
+    ctx.floor("C20.R12", "per-message handlers of the transfer managers", len(hs), 3)
+    n = 0
+    seen = set()
+    for ci, pump, h in hs:
+        for f in class_methods_reachable(repo, h):
+            if f.full in seen:
+                continue
+            seen.add(f.full)
+            for c in find_calls(f.node, "set_result"):
+                if not isinstance(c.func, ast.Attribute):
+                    continue
+                recv = ap(c.func.value)
+                n += 1
+                ok = any((not pol) and isinstance(e, ast.Call) and ap(e.func) == f"{recv}.done" for e, pol in facts(c, f.node))
+                _ob(ctx, "C20.R12", f"{f.qual}: {recv}.set_result() only while {recv} is unresolved", ok, ctx.w(f, c),
+                    f"{f.qual} runs for every matching message; a repeated one (resend / duplicate) reaches "
+                    f"`{norm(c)}` a second time, which raises InvalidStateError inside the reply pump")
+    ctx.floor("C20.R12", "set_result sites in per-message handlers", n, 2)
+
+
+def r13(ctx):
+    repo = ctx.repo
+    ctx.rule("C20.R13", "chunk handlers reach the chunk store, the end-marker bookkeeping and the completion test on "
+                        "every normal path: an early return before them is only for a finished transfer or a held chunk")
+    sibs = [repo.fn("XferManager._handle_send_xfer_packet", XFER),
+            repo.fn("TransferManager._handle_transfer_packet", TRANSFER)]
+    for h in sibs:
+        fns = class_methods_reachable(repo, h)
+        marks = [c for c in find_calls(h.node, "mark_done")] or \
+            [c for f in fns[1:] if find_calls(f.node, "mark_done") for c in find_calls(h.node, f.name)]
+        ctx.require(marks, f"C20.R13: {h.qual}: completion decision not found in the handler (re-read)")
+        last = marks[-1]
+        early = [r for r in walk(h.node) if isinstance(r, ast.Return) and _precedes(r, last)]
+        bad = []
+        for r in early:
+            fs = facts(r, h.node)
+            justified = any(
+                (pol and isinstance(e, ast.Call) and (ap(e.func) or "").endswith(".done")) or
+                (isinstance(e, ast.Compare) and len(e.ops) == 1 and (ap(e.comparators[0]) or "").endswith(".chunks")
+                 and isinstance(e.ops[0], ast.In if pol else ast.NotIn))
+                for e, pol in fs)
+            if not justified:
+                bad.append(r)
+                why = " and ".join(norm(e) if pol else f"not ({norm(e)})" for e, pol in fs) or "unconditionally"
+                _ob(ctx, "C20.R13", f"{h.qual}: early return when {why} still stores the chunk and decides completion",
+                    False, ctx.w(h, r),
+                    "the arriving packet is dropped before it is stored / before the end marker is recorded / before "
+                    "completion is decided, on a condition that says nothing about the chunk being held already")
+        _ob(ctx, "C20.R13", f"{h.qual}: every normal path reaches store, end-marker bookkeeping and completion test",
+            not bad, h.where, f"{len(bad)} unjustified early return(s)")
+
+
 def run(ctx):
     r1(ctx)
     r2(ctx)
@@ -2155,3 +2240,5 @@ def run(ctx):
     r9(ctx)
     r10(ctx)
     r11(ctx)
+    r12(ctx)
+    r13(ctx)
